@@ -284,3 +284,45 @@ _ROUND6 = {
 for _p, (_tech, _text) in _ROUND6.items():
     CLAIMS[_p]["technique"] += _tech
     CLAIMS[_p]["text"] += _text
+
+_ROUND7 = {
+    "C01": ("; every spelling of the logical clock consulted before the wall clock",
+            " A wall-clock reading that stands in for the turn's time in T2 lies behind tests of ctx.now AND ctx.now_ms; the order of a casefold-keyed sort of a set is decided by a total key (seeded round 7)."),
+    "C03": ("; caps read from every config holder and holder shape; total conversion of a proposal's magnitude",
+            " The meta-filter's accessor looks in ctx.config and ctx.cfg, object- or dict-shaped, like the gate of the stage; float(<magnitude>) in the merge step is under a handler covering OverflowError."),
+    "C04": ("; exactness of the version increment; store method lookups under a handler; holder shape of the apply accessors",
+            " No float / round / division in the operand of the version increment (followed into helpers); getattr(store, ...) / store.<attr> in apply_changes are enclosed like the call; apply's accessors find their section in a dict-shaped ctx.config."),
+    "C05": ("; whole-entry key atoms (a section the key holds whole covers its leaves); metrics of the cached result in the dependency set; no canonicalised order where the computation consumes it; hit path leaves what the fresh path leaves; etag re-derived on exceptional exits; total etag hash; identity of foreign indexes kept outside the object",
+            " The cached T2 value now includes its metrics: the metrics gate, the perf.t2 knobs and the reader mode are in the key; the T1 key names the seeds in seeding order; every write into the turn context on the fresh path of T2 is also made on the stage-cache hit path and made up for by run_turn on a turn-level hit; no exceptional exit after a completed graph write skips _bump_etag and the hash has no unguarded conversion; index_uid writes nothing into its argument."),
+    "C06": ("; NaN handled by the clamp; schema sidecar written by the offline compaction script",
+            " snapshot._clamp tells NaN apart before comparing and enforces both sides; each compacted snapshot of scripts/mem_compact.py is followed by a sidecar write."),
+    "C07": ("; baseline CONTENT recorded in the delta header and compared by the baseline reader; delta operand checked to be an object; tree copy of the base",
+            " The delta header carries a value computed from the baseline payload, the baseline reader compares it and every reader passes it on; apply_delta's second operand is applied only where it is known to be a dict (no `or {}`); the patched object is a recursive rebuild of the base, not copy.deepcopy / a shallow copy."),
+    "C08": ("; the repository-level console copy on the atomic path",
+            " scripts/console.py (a full copy of the packaged console) writes its bundle through atomic_write_*."),
+    "C10": ("; per-agent context carries every input run_turn reads; an agent picked once per batch; turn id never a clock reading; only turns that reached T4 are committed; every drained record tried; compute-phase readers accept the read-only view; interprocedural dry-run infeasibility",
+            " Every attribute run_turn (and what it hands its context to, depth 3) reads and does not write is carried by _clone_ctx_for_agent; picked.append is reached only where the agent is not picked yet; no clock call feeds the compute phase's turn id; the commit is guarded by the buffer field set from the T4 artifact; each loop over drain_sorted() tries every record; no exact-container-type test or in-place completion on values taken out of the state in t1_propagate / t2_semantic / t4_filter / graph_versions and their callees (hazards.frozen_view_hazards, with a positive control)."),
+    "C11": ("; hit looked up under its own owner; used hits a prefix of the returned order; rescoring data on every backend",
+            " The rescoring loop finds a hit's episode under (owner, id) first; the hits walked for the residual nudges are the returned list or a prefix of it; the data attribute the combined score reads from the index exists on every index class (1 known finding: LanceIndex has no _eps)."),
+    "C12": ("; caps reach the caller's container",
+            " A helper that trims a parameter by re-binding it (after mutating it) is reported unless the caller gets the new object back (hazards.lost_param_rebinding)."),
+    "C13": ("; utterance filter decided from the parsed patterns; refinement keeps the Speak budget; only JSON whitespace trimmed",
+            " Each replacement of the utterance filter has no more whitespace-separated tokens than a lower bound of what its pattern matches (re._parser); the Speak op rebuilt by rag_once gets min(t3.tokens, the replaced op's max_tokens); every strip between the planner text and json.loads names the JSON whitespace set."),
+    "C14": ("; total coercion helpers; closed key set of sub-mappings the engine hashes whole; upper bounds of powers; NUL-free path knobs; nested sections stored back into the merged tree reject non-mappings; total CLI output (both copies)",
+            " int() / float() in the coercers are under handlers covering OverflowError; t1.decay has a closed key set and its rate is bounded above (recognised also through constant folding of the guard with a huge value); every knob whose message says 'path' rejects an embedded NUL; t2.quality rejects a non-mapping; the CLI converts the accepted tree before json.dumps and prints messages through a printer that escapes what the stream cannot encode, in clematis/scripts/validate.py and in scripts/validate_config.py."),
+    "C15": ("; the namespace cache short-circuits on capacity 0",
+            " _NamespaceCache.set is no longer exempt from the disabled-short-circuit obligation."),
+    "C16": ("; rotation needs a live file and stops on a failed move; sibling JSONL writers escape what UTF-8 cannot carry; stager turn order = driver turn order",
+            " Every destructive step of rotate_one is reachable only where the live file exists and a cascade handler swallows FileNotFoundError only; text-mode JSONL append sites with ensure_ascii=False pass an error handler; drain_sorted's turn component goes through the same int-else-text normalisation as the driver's buffer sort."),
+    "C17": ("; RESET pick not through a queue-head helper",
+            " Helpers returning an element of param['queue'] are resolved at their call sites."),
+    "C18": ("; adapter ids are strings on every branch; finite clamp bounds; total half-life conversion",
+            " Every return of _as_id_score has its id as str() / repr(); the validator requires graph.update.clamp_* to be finite; float(<half_life_turns>) in the GEL is under a handler covering OverflowError."),
+    "C19": ("; stored text not lengthened by the writer; request flag written / cleared in both state shapes and consumed by the gate; per-turn ctx value cleared when it cannot be derived",
+            " No NFK* normalisation / replace / format / join / padding of the stored text in _normalize_entry; every setattr of the request flag in run_policy has its state[...] twin and the gate resets the flag after reading it; the swallowing try around the now_iso derivation clears the value in its handler."),
+    "C20": ("; default containers only where absent; parsed snapshot body coerced only when an object; inputs of optional layers fail-soft",
+            " The boot loader stores empty GEL containers only behind an absence test; every `<body> or {}` lies behind isinstance(<body>, dict); a local consumed only by a declared optional call is computed under a guard (or by a total callee)."),
+}
+for _p, (_tech, _text) in _ROUND7.items():
+    CLAIMS[_p]["technique"] += _tech
+    CLAIMS[_p]["text"] += _text
